@@ -837,18 +837,28 @@ impl<'d> Exec<'d> {
                     .filters
                     .iter()
                     .map(|f| {
-                        let mut o = SubscriptionOptions::default().maximum_qos(qos_of(f.max_qos));
-                        if f.no_local {
-                            o = o.ignore_local_messages();
-                        }
-                        if f.rap {
-                            o = o.retain_as_published();
-                        }
-                        o = o.retain_behavior(match f.rh {
+                        // the four setters in one of four orders (decided by the filter itself)
+                        let rh = match f.rh {
                             0 => RetainHandling::Immediately,
                             1 => RetainHandling::IfSubscriptionDoesNotExist,
                             _ => RetainHandling::Never,
-                        });
+                        };
+                        let mut o = SubscriptionOptions::default();
+                        let order: [u8; 4] = match f.filter.len() % 4 {
+                            0 => [0, 1, 2, 3],
+                            1 => [3, 2, 1, 0],
+                            2 => [1, 3, 0, 2],
+                            _ => [2, 0, 3, 1],
+                        };
+                        for step in order {
+                            o = match step {
+                                0 => o.maximum_qos(qos_of(f.max_qos)),
+                                1 if f.no_local => o.ignore_local_messages(),
+                                2 if f.rap => o.retain_as_published(),
+                                3 => o.retain_behavior(rh),
+                                _ => o,
+                            };
+                        }
                         TopicFilter::new(&f.filter).options(o)
                     })
                     .collect();
